@@ -71,3 +71,9 @@ claim('C17', 'exploration', 'bounded-exhaustive search-path sequences x name for
       'dangling link / absent and with every tilde form; cfg_searchpath and cfg_tilde_expand results are compared with model_fs, and cfg_parse(name) / include(name) must load the file the model names (distinct markers). '
       'The memory clause ("never depends on uninitialised memory") is decided by MemorySanitizer and memcheck on the same executions. Bounded enumeration fits: precedence and file-vs-directory discrimination are order effects over few directories.',
       'Trusts: Python os.path.isfile / pwd as the reference for "regular file" and the passwd database; MSan sees only the reads these workloads perform.')
+
+claim('C16', 'exploration', 'AddressSanitizer on poisoned-and-freed declaration memory plus twin/invariance differentials on real executions (two contexts from one declaration, sibling section instances)',
+      'Right after cfg_init every declaration array and string is overwritten and freed, so any later read of caller memory is an ASan use-after-free; the poisoned context is then driven through texts that create '
+      'the 1st..4th instance of nested multi sections, setters and prints and must end equal to an unpoisoned twin. For sharing, each operation (parse adding free-form keys, setter, annotation, print callback, validator) is '
+      'applied to one context / one section instance and the untouched one must keep an identical dump and print. Random schemas with deep nesting are the right level: a missed field in the deep copy shows only for particular shapes.',
+      'Trusts: ASan quarantine keeps freed declaration memory unreused for the duration of a case; "simple" options are shared by design and excluded.')
